@@ -87,6 +87,7 @@ def px_rules(ctx: Ctx):
         ctx.ob(rule, q, f"writer.{e.attr} = {show(e.value)}", ok,
                "writer field updated on a path where the allocation result was not checked against NULL", where(fi, e.node),
                sample="allocation != NULL on this path")
+    sets_error = []
     for s, v, node in r.returns:
         allocs = [t for t in s.trace if t[0] == "call" and callee_name(t) in ALLOC]
         failed = [a for a in allocs if truth(("cmp", "Eq", a, ("ext", "c", "NULL")), s.facts) is True]
@@ -95,11 +96,12 @@ def px_rules(ctx: Ctx):
         ctx.instance(rule)
         stores = [t for t in s.trace if t[0] == "store"]
         nomem = any(t[0] == "call" and callee_name(t) == "PyErr_NoMemory" for t in s.trace)
-        ok = v == ("const", -1) and nomem and not stores
+        sets_error.append(nomem)
+        ok = v == ("const", -1) and not stores
         ctx.ob(rule, q, f"allocation failure path of {show(failed[0])[:60]}", ok,
-               "on allocation failure the function must set MemoryError, return -1 and leave the writer untouched "
-               f"(returns {show(v)}, MemoryError set: {nomem}, writer stores: {len(stores)})", where(fi, node),
-               sample="PyErr_NoMemory(); return -1; writer untouched")
+               "on allocation failure the function must return -1 and leave the writer untouched "
+               f"(returns {show(v)}, writer stores: {len(stores)}); how the failure becomes MemoryError is PX7", where(fi, node),
+               sample="return -1; writer untouched" + ("; PyErr_NoMemory()" if nomem else ""))
     for e in r.by_kind("call"):
         if callee_name(e.value) == "memcpy":
             ctx.instance(rule)
@@ -154,6 +156,69 @@ def px_rules(ctx: Ctx):
                      (f2.name == "_init_writer" and e.value == ("const", 0))
                 ctx.ob(rule, f2.qual, f"writer.pos = {show(e.value)}", ok, "writer.pos changed other than by +1 after a store / reset in init",
                        where(f2, e.node), sample="pos += 1 after the bounded store")
+
+    _px_failures(ctx, model, any(sets_error) and all(sets_error))
+
+
+def _px_failures(ctx: Ctx, model: Model, leaf_sets_error: bool):
+    """PX6: the result of every call that can report an allocation failure (-1) is looked at - tested, or handed on as
+    the caller's own result - never dropped (a dropped failure loses output: the next write retries the growth and may
+    succeed).  PX7: where the chain of int results ends (a function that returns an object), a failed call leads to an
+    exception on that path: `raise MemoryError`, or a bare `raise` when the allocating function has set MemoryError."""
+    funcs = list(model.all_funcs(("pyx",), helpers=True))
+    byname = {f.name: f for f in funcs}
+    res = {f.qual: analyze(model, f) for f in funcs}
+    # functions that can fail with -1: they allocate, or return -1 / the result of such a function
+    fallible = set()
+    changed = True
+    while changed:
+        changed = False
+        for f in funcs:
+            if f.name in fallible:
+                continue
+            r = res[f.qual]
+            rets = [v for _s, v, _n in r.returns]
+            allocs = any(callee_name(e.value) in ALLOC for e in r.by_kind("call"))
+            calls_f = any(callee_name(e.value) in fallible for e in r.by_kind("call"))
+            minus1 = any(v == ("const", -1) for v in rets) or any(callee_name(v) in fallible for v in rets)
+            if minus1 and (allocs or calls_f):
+                fallible.add(f.name)
+                changed = True
+    r6, r7 = "PX6", "PX7"
+    ctx.rule(r6, floor=4, what="the -1 of a failed write / growth is never dropped: every such result is tested or returned")
+    ctx.rule(r7, floor=1, what="an allocation failure surfaces as MemoryError where the chain of int results ends")
+    if not fallible:
+        raise AnalysisError("PX6: no function of the writer can report an allocation failure (anchor vanished)")
+    for f in funcs:
+        r = res[f.qual]
+        tests = [t for e in r.by_kind("cond") for t in walk(e.test)]
+        rets = [t for _s, v, _n in r.returns for t in walk(v)]
+        raises_on = []
+        seen = set()
+        for e in r.by_kind("call"):
+            if callee_name(e.value) not in fallible or id(e.node) in seen:
+                continue
+            seen.add(id(e.node))
+            ctx.instance(r6)
+            looked_at = any(t == e.value for t in tests) or any(t == e.value for t in rets)
+            ctx.ob(r6, f.qual, show(e.value)[:80], looked_at,
+                   "the result of a call that returns -1 on allocation failure is dropped: the failure is lost, a later write may "
+                   "succeed and the call returns a result with characters missing instead of raising MemoryError", where(f, e.node),
+                   sample="tested (< 0) or returned")
+            raises_on.append(e)
+        if f.name in fallible or not raises_on:
+            continue
+        # the chain ends here: every failing branch must raise
+        for e in raises_on:
+            ctx.instance(r7)
+            failing = [x for x, exc, _n in r.raises if truth(("cmp", "Lt", e.value, ("const", 0)), x.facts) is True]
+            kinds = {("reraise" if exc == ("const", "<reraise>") else show(exc)) for x, exc, _n in r.raises
+                     if truth(("cmp", "Lt", e.value, ("const", 0)), x.facts) is True}
+            ok = bool(failing) and all(k == "reraise" and leaf_sets_error or k.startswith("MemoryError") for k in kinds)
+            ctx.ob(r7, f.qual, f"failure of {show(e.value)[:60]}", ok,
+                   f"a failed write does not end in MemoryError here (raises on the failing branch: {sorted(kinds) or 'none'}; the "
+                   f"allocating function sets MemoryError: {leaf_sets_error})", where(f, e.node),
+                   sample="raise MemoryError" if "reraise" not in kinds else "bare raise of the MemoryError set by the allocator")
 
 
 CRITICAL = ["_Quoter._do_quote", "_Quoter._write", "_write_char", "_write_pct", "_write_utf8", "_to_hex", "_restore_ch",
